@@ -16,6 +16,7 @@ import (
 
 	ebu "github.com/jilio/ebu"
 
+	"verif/harness/internal/faultsql"
 	"verif/harness/internal/jgen"
 	"verif/harness/internal/reflog"
 	"verif/harness/internal/stores"
@@ -47,13 +48,25 @@ func family(kind string) string {
 
 type flags struct{ chain3, eventResume, nonUTC bool }
 
+var (
+	busyErr     error // a genuine SQLITE_BUSY error value
+	busyStreams atomic.Int64
+)
+
 func TestC10(t *testing.T) {
 	run := vk.New("C10", "lockstep")
 	defer run.Finish()
+	defer func() { run.Count("sqlite_streams_with_a_transient_busy_error", busyStreams.Load()) }()
+	restoreOpener := faultsql.Install()
+	defer restoreOpener()
 	defer func() { run.Count("durable_appends_with_the_reply_lost_after_commit", lostAcks.Load()) }()
 	scratch := os.Getenv("VERIF_SCRATCH")
 	if scratch == "" {
 		scratch = t.TempDir()
+	}
+	os.MkdirAll(scratch, 0o755)
+	if be, err := faultsql.GenuineBusy(scratch); err == nil {
+		busyErr = be
 	}
 	kinds := stores.Kinds()
 	perKind := run.Scale(6, 150)
@@ -399,10 +412,24 @@ func doStream(ctx context.Context, rng *rand.Rand, s *sut, viol violFn) {
 	from := pick(rng, s)
 	pos, _ := s.ref.Pos(from)
 	origin := s.ref.OriginOf(from)
+	// every eighth stream of a SQLite store meets one transient SQLITE_BUSY in its row iteration (a
+	// writer held the lock for longer than the busy timeout): the stream may end with that error or
+	// recover, but what it yields is still the log - in order, nothing twice
+	busy := s.fam == "sqlite" && busyErr != nil && len(s.ref.Events)-pos > 0 && rng.IntN(8) == 0
+	if busy {
+		faultsql.Set(faultsql.Plan{Match: "FROM events", QueryN: 0, FailRow: 1 + rng.IntN(len(s.ref.Events)-pos), Err: busyErr})
+		defer faultsql.Set(faultsql.Plan{})
+		busyStreams.Add(1)
+	}
 	// a consumer may keep what the stream yields: collect first, compare afterwards
 	var collected []*ebu.StoredEvent
+	endedWithBusy := false
 	for e, err := range st.ReadStream(ctx, from) {
 		if err != nil {
+			if busy && strings.Contains(err.Error(), "SQLITE_BUSY") {
+				endedWithBusy = true
+				break
+			}
 			viol(s, "stream-error", origin, fmt.Sprintf("ReadStream(%q) yielded error %v", from, err))
 			return
 		}
@@ -420,6 +447,9 @@ func doStream(ctx context.Context, rng *rand.Rand, s *sut, viol violFn) {
 		i++
 	}
 	s.trace = append(s.trace, fmt.Sprintf("ReadStream(%q[pos %d]) -> %d events", from, pos, i))
+	if endedWithBusy {
+		return // a reported error after a correct prefix
+	}
 	if pos+i != len(s.ref.Events) {
 		viol(s, "stream-incomplete", origin, fmt.Sprintf("ReadStream(%q) ended after %d of the %d events that follow", from, i, len(s.ref.Events)-pos))
 	}
